@@ -748,9 +748,12 @@ def forall(lo, hi, fn):
             r = both(r, fn(j))
         return r
     st = cur()
-    if st.capture is None and not getattr(st, "has_quant", False):
-        r0, _m = st._check(_z(lo) < _z(hi), 1000)
-        if r0 == z3.unsat:
+    if st.capture is None:
+        if getattr(st, "has_quant", False):
+            empty = st.refuted_qf(_z(lo) < _z(hi))
+        else:
+            empty = st._check(_z(lo) < _z(hi), 1000)[0] == z3.unsat
+        if empty:
             return True  # empty range on this path
     j = z3.Int(st.fresh_name("q"))
     saved = st.capture
